@@ -1120,6 +1120,10 @@ func runHashPrimitives(c *Ctx, prims map[*ssa.Function]string) {
 		if nPaths == 0 {
 			ok = false
 		}
+		if !ok {
+			// the same encoding written out: the presence flag, then the Unix seconds when present
+			ok = timePtrDirectForm(c, f, tp, prims)
+		}
 		c.Check(ok, "H3", fname, "nil-preserving Unix seconds", p.pos(f.Pos()), "timePtr passes nil for nil and &t.Unix() otherwise to hashNumberPtr (zone presentation is ignored, absence is kept)", "timePtr does not encode (presence, Unix seconds): either absence is lost or the zone presentation leaks into the hash")
 	}
 	// H4: hash.Hash.Write only in flush and string
@@ -1200,6 +1204,49 @@ func runHashPrimitives(c *Ctx, prims map[*ssa.Function]string) {
 			}
 		}
 		c.Stats["G15 number() call sites"] = n
+	}
+	// H5: the encoding keeps every bit: on the way into the hash no value is converted to a type that cannot hold it
+	// (float to integer truncates the fraction, a narrower integer or float drops the high bits / the precision).
+	// math.Float32bits / Float64bits are calls, not conversions, and keep the bits.
+	{
+		sizes := types.SizesFor("gc", "amd64")
+		nConv := 0
+		seen := map[*ssa.Function]bool{}
+		for _, fn := range hashFns(c) {
+			if seen[fn] || fnPkgPath(fn) != modPath || (fn.TypeParams().Len() > 0 && len(fn.TypeArgs()) == 0) {
+				continue
+			}
+			seen[fn] = true
+			for _, b := range fn.Blocks {
+				for _, in := range b.Instrs {
+					cv, ok := in.(*ssa.Convert)
+					if !ok {
+						continue
+					}
+					from, okF := cv.X.Type().Underlying().(*types.Basic)
+					to, okT := cv.Type().Underlying().(*types.Basic)
+					if !okF || !okT || from.Info()&types.IsNumeric == 0 || to.Info()&types.IsNumeric == 0 {
+						continue
+					}
+					if _, isConst := cv.X.(*ssa.Const); isConst {
+						continue
+					}
+					nConv++
+					lossy := ""
+					switch {
+					case from.Info()&types.IsFloat != 0 && to.Info()&types.IsInteger != 0:
+						lossy = "the fraction is cut off (values that differ after the decimal point hash alike)"
+					case sizes.Sizeof(to) < sizes.Sizeof(from):
+						lossy = "the target type is narrower (values that differ in the dropped bits hash alike)"
+					}
+					c.Check(lossy == "", "H5", shortName(fn), "conversion "+from.String()+" -> "+to.String()+" keeps the value", p.ipos(cv), "a conversion that no value of the source type is changed by", "on the way into the hash a "+from.String()+" is converted to "+to.String()+": "+lossy)
+				}
+			}
+		}
+		c.Stats["H5 numeric conversions in the hash code"] = nConv
+		if nConv == 0 {
+			c.Proved("H5", "gtfs", "no numeric conversion in the hash code", "-", "values reach the encoder in their own type")
+		}
 	}
 }
 
@@ -1314,6 +1361,197 @@ func (hc *hashCollector) srcThroughCall(x *ssa.Call, env map[ssa.Value][]hsrc, d
 
 // enumPaths calls visit for every acyclic path of fn from its entry to a return (loops are cut: a block occurs at most
 // once on a path). Returns the number of paths.
+// timePtrDirectForm: on every path through f exactly: number(flag) with flag a function of `t == nil` alone, followed
+// -- exactly on the paths where t is known to be non-nil -- by number(t.Unix()). Flag and seconds may come from a
+// helper of the module that answers (t.Unix(), true) for a non-nil t and (constant, false) for nil.
+func timePtrDirectForm(c *Ctx, f *ssa.Function, tp *ssa.Parameter, prims map[*ssa.Function]string) bool {
+	type helperInfo struct {
+		flagIdx, valIdx int
+		trueIsNonNil    bool
+	}
+	helpers := map[*ssa.Call]*helperInfo{}
+	validate := func(call *ssa.Call) *helperInfo {
+		if hi, seen := helpers[call]; seen {
+			return hi
+		}
+		helpers[call] = nil
+		h := call.Call.StaticCallee()
+		if h == nil || call.Call.IsInvoke() || !c.P.isModuleFn(h) || len(h.Blocks) == 0 || h.Signature.Results().Len() != 2 {
+			return nil
+		}
+		var hp *ssa.Parameter
+		for i, a := range call.Call.Args {
+			if a == ssa.Value(tp) && i < len(h.Params) {
+				hp = h.Params[i]
+			}
+		}
+		if hp == nil {
+			return nil
+		}
+		hi := &helperInfo{flagIdx: -1, valIdx: -1}
+		for i := 0; i < 2; i++ {
+			if bt, ok := h.Signature.Results().At(i).Type().Underlying().(*types.Basic); ok && bt.Kind() == types.Bool {
+				hi.flagIdx, hi.valIdx = i, 1-i
+			}
+		}
+		if hi.flagIdx < 0 {
+			return nil
+		}
+		sawNil, sawNonNil, polaritySet := false, false, false
+		for _, blk := range h.Blocks {
+			ret, ok := blk.Instrs[len(blk.Instrs)-1].(*ssa.Return)
+			if !ok {
+				continue
+			}
+			k, isC := ret.Results[hi.flagIdx].(*ssa.Const)
+			if !isC {
+				return nil
+			}
+			flag, _ := constBool(k)
+			known, isNil := false, false
+			for _, ce := range dominatingConds(blk) {
+				if bo, isBo := ce.Cond.(*ssa.BinOp); isBo && (bo.Op == token.EQL || bo.Op == token.NEQ) && bo.X == ssa.Value(hp) && isNilConst(bo.Y) {
+					known, isNil = true, (bo.Op == token.EQL) == ce.Val
+				}
+			}
+			if !known {
+				return nil
+			}
+			if isNil {
+				sawNil = true
+				if _, isConst := ret.Results[hi.valIdx].(*ssa.Const); !isConst {
+					return nil
+				}
+				if polaritySet && hi.trueIsNonNil == flag {
+					return nil
+				}
+				hi.trueIsNonNil, polaritySet = !flag, true
+			} else {
+				sawNonNil = true
+				uc, isCall := ret.Results[hi.valIdx].(*ssa.Call)
+				if !isCall || calleeName(uc) != "(time.Time).Unix" {
+					return nil
+				}
+				ld, isLd := uc.Call.Args[0].(*ssa.UnOp)
+				if !isLd || ld.Op != token.MUL || ld.X != ssa.Value(hp) {
+					return nil
+				}
+				if polaritySet && hi.trueIsNonNil != flag {
+					return nil
+				}
+				hi.trueIsNonNil, polaritySet = flag, true
+			}
+		}
+		if !sawNil || !sawNonNil {
+			return nil
+		}
+		helpers[call] = hi
+		return hi
+	}
+	// presence: v is true exactly when t is nil ("nil") / non-nil ("nonnil")
+	var presence func(v ssa.Value, d int) string
+	presence = func(v ssa.Value, d int) string {
+		if d > 4 {
+			return ""
+		}
+		switch x := v.(type) {
+		case *ssa.MakeInterface:
+			return presence(x.X, d+1)
+		case *ssa.UnOp:
+			if x.Op == token.NOT {
+				switch presence(x.X, d+1) {
+				case "nil":
+					return "nonnil"
+				case "nonnil":
+					return "nil"
+				}
+			}
+		case *ssa.BinOp:
+			if (x.Op == token.EQL || x.Op == token.NEQ) && x.X == ssa.Value(tp) && isNilConst(x.Y) {
+				if x.Op == token.EQL {
+					return "nil"
+				}
+				return "nonnil"
+			}
+		case *ssa.Extract:
+			if call, ok := x.Tuple.(*ssa.Call); ok {
+				if hi := validate(call); hi != nil && x.Index == hi.flagIdx {
+					if hi.trueIsNonNil {
+						return "nonnil"
+					}
+					return "nil"
+				}
+			}
+		}
+		return ""
+	}
+	unixVal := func(v ssa.Value) bool {
+		if mi, ok := v.(*ssa.MakeInterface); ok {
+			v = mi.X
+		}
+		switch x := v.(type) {
+		case *ssa.Call:
+			if calleeName(x) == "(time.Time).Unix" {
+				ld, ok := x.Call.Args[0].(*ssa.UnOp)
+				return ok && ld.Op == token.MUL && ld.X == ssa.Value(tp)
+			}
+		case *ssa.Extract:
+			if call, ok := x.Tuple.(*ssa.Call); ok {
+				if hi := validate(call); hi != nil && x.Index == hi.valIdx {
+					return true
+				}
+			}
+		}
+		return false
+	}
+	good := true
+	n := enumPaths(f, func(path []*ssa.BasicBlock) {
+		known, isNil := false, false
+		var seq []string
+		for i, blk := range path {
+			for _, in := range blk.Instrs {
+				call, isCall := in.(*ssa.Call)
+				if !isCall {
+					continue
+				}
+				k := prims[originOf(staticCallee(call))]
+				if k == "" {
+					continue
+				}
+				if k != "number" || len(call.Call.Args) < 2 {
+					seq = append(seq, "?")
+					continue
+				}
+				switch {
+				case presence(call.Call.Args[1], 0) != "":
+					seq = append(seq, "flag")
+				case unixVal(call.Call.Args[1]) && known && !isNil:
+					seq = append(seq, "unix")
+				default:
+					seq = append(seq, "?")
+				}
+			}
+			if i+1 < len(path) {
+				if iff, isIf := blk.Instrs[len(blk.Instrs)-1].(*ssa.If); isIf && blk.Succs[0] != blk.Succs[1] {
+					if pr := presence(iff.Cond, 0); pr != "" {
+						taken := blk.Succs[0] == path[i+1]
+						known = true
+						isNil = (pr == "nil") == taken
+					}
+				}
+			}
+		}
+		want := "flag"
+		if known && !isNil {
+			want = "flag unix"
+		}
+		if !known || strings.Join(seq, " ") != want {
+			good = false
+		}
+	})
+	return good && n > 0
+}
+
 func enumPaths(fn *ssa.Function, visit func(path []*ssa.BasicBlock)) int {
 	n := 0
 	if len(fn.Blocks) == 0 {
